@@ -419,10 +419,12 @@ class TrajectoryCalc:
                     or range_vector.y < _cMaximumDrop
                     or self.alt0 + range_vector.y < _cMinimumAltitude
             ):
+                # the terminal row is no record of its own: re-using this iteration's flags would repeat an event
+                # (zero crossing / Mach) that the row recorded at the top of the iteration has already reported
                 ranges.append(create_trajectory_row(
                     time, range_vector, velocity_vector,
                     velocity, mach, self.spin_drift(time), self.look_angle,
-                    density_factor, drag, self.weight, data_filter.current_flag
+                    density_factor, drag, self.weight, TrajFlag.NONE
                 ))
                 if velocity < _cMinimumVelocity:
                     reason = RangeError.MinimumVelocityReached
